@@ -71,7 +71,8 @@ def _name_patterns(k):
     pats = [[f"m{i}" for i in range(k)]]
     if k >= 2:
         pats.append(["same"] * k)  # members may share a name
-    pats.append([f"stale{i}" for i in range(k)])  # members whose configurations report a stale maze count until update_self_config
+    if k >= 1:
+        pats.append([f"stale{i}" for i in range(k)])  # members whose configurations report a stale maze count until update_self_config
     return pats
 
 
@@ -102,6 +103,7 @@ def jobs(tier, seed):
     for i in range(0, len(vecs), chunk):
         out.append(dict(h="getitem", vectors=vecs[i:i + chunk], label=f"getitem:vectors[{i}:{i + chunk}]"))
     # large members: running totals beyond the int8 / int16 / uint16 ranges (the index stays symbolic over the whole collection)
+    out.append(dict(h="getitem", vectors=[[]], label="getitem:no members"))  # a collection without members is empty, not an error
     big = [[127, 1], [128, 0, 1], [100, 100, 100], [255, 0, 2], [20000, 0, 12768], [32767, 1], [32768], [40000, 3], [1, 65535, 2]]
     if tier != "quick":
         big += [[70000, 1, 70000], [0, 32768, 0, 32768], [2 ** 17, 5]]
@@ -130,7 +132,7 @@ def _run_getitem(job):
         cd.np = SNP
         try:
             _history()
-            stale = names[0].startswith("stale")
+            stale = bool(names) and names[0].startswith("stale")
             coll, ms = _collection(v, names, _grid_ns(len(v), vi), stale)
             obs = [("len == sum of member lengths", z3.BoolVal(len(coll) == total)),
                    ("per-member lengths", z3.BoolVal(list(coll.dataset_lengths) == list(v))),
@@ -162,12 +164,16 @@ def _replay_getitem(job, inputs, notes):
         _history()
     except Exception as e:
         return f"collection-getitem | reading several collections with different length vectors one after the other ([1,0,3], [0,2,0,0,2], [4], then {tag}): {type(e).__name__}: {str(e)[:100]}"
-    stale = names[0].startswith("stale")
+    stale = bool(names) and names[0].startswith("stale")
     try:
         coll, ms = _collection(v, names, _grid_ns(len(v), vi), stale)
     except Exception as e:
         return f"collection-construct | {tag} grid sizes {_grid_ns(len(v), vi)}: building the collection raised {type(e).__name__}: {str(e)[:100]}"
-    if len(coll) != total or list(coll.dataset_lengths) != list(v):
+    try:
+        n_now = len(coll)
+    except Exception as e:
+        return f"collection-length | {tag}: len(collection) raised {type(e).__name__}: {str(e)[:100]}"
+    if n_now != total or list(coll.dataset_lengths) != list(v):
         return f"collection-length | {tag}: len={len(coll)} dataset_lengths={coll.dataset_lengths}"
     if list(coll.mazes) != list(range(total)):
         return f"collection-mazes | {tag}: mazes={coll.mazes}"
